@@ -16,19 +16,12 @@ import (
 	"github.com/absfs/absfs"
 )
 
-// New creates a new AbsfsNFS server instance
-func New(fs absfs.SymlinkFileSystem, options ExportOptions) (*AbsfsNFS, error) {
-	if fs == nil {
-		return nil, os.ErrInvalid
-	}
-
-	// Validate squash mode
-	squash := strings.ToLower(options.Squash)
-	if squash != "" && squash != "root" && squash != "all" && squash != "none" {
-		return nil, fmt.Errorf("invalid squash mode %q: must be root, all, or none", options.Squash)
-	}
-
-	// Set default values if not specified
+// applyOptionDefaults fills in the defaults for every numeric, duration and
+// pointer field of options that was left at zero (or given a negative value).
+// It is shared by New and by the runtime update paths (UpdateExportOptions,
+// UpdateTuningOptions) so that a partially filled options struct means the
+// same thing at construction and at runtime.
+func applyOptionDefaults(options *ExportOptions) {
 	if options.TransferSize <= 0 {
 		options.TransferSize = 65536 // Default: 64KB
 	}
@@ -140,6 +133,23 @@ func New(fs absfs.SymlinkFileSystem, options ExportOptions) (*AbsfsNFS, error) {
 			options.Timeouts.DefaultTimeout = 30 * time.Second
 		}
 	}
+
+}
+
+// New creates a new AbsfsNFS server instance
+func New(fs absfs.SymlinkFileSystem, options ExportOptions) (*AbsfsNFS, error) {
+	if fs == nil {
+		return nil, os.ErrInvalid
+	}
+
+	// Validate squash mode
+	squash := strings.ToLower(options.Squash)
+	if squash != "" && squash != "root" && squash != "all" && squash != "none" {
+		return nil, fmt.Errorf("invalid squash mode %q: must be root, all, or none", options.Squash)
+	}
+
+	// Set default values if not specified
+	applyOptionDefaults(&options)
 
 	// Create server object with configured caches
 	// Initialize structured logger
@@ -335,27 +345,35 @@ func (n *AbsfsNFS) UpdateExportOptions(newOptions ExportOptions) error {
 		return fmt.Errorf("nil server")
 	}
 
-	// Apply tuning changes (lock-free, immediate).
-	// Use tuningFromExportOptions for complete field coverage.
-	// Preserve Timeouts and Log from the current snapshot when not provided,
-	// since nil pointer fields would cause panics on NFS operations.
-	n.UpdateTuningOptions(func(t *TuningOptions) {
-		newTuning := tuningFromExportOptions(&newOptions)
-		if newTuning.Timeouts == nil {
-			newTuning.Timeouts = t.Timeouts
-		}
-		if newTuning.Log == nil {
-			newTuning.Log = t.Log
-		}
-		*t = *newTuning
-	})
-
-	// Validate immutable fields before attempting policy update.
+	// Validate immutable fields before anything is applied, so that a rejected
+	// update leaves the whole configuration untouched.
 	// Squash cannot be changed at runtime.
 	currentPolicy := n.policy.Load()
 	if newOptions.Squash != "" && newOptions.Squash != currentPolicy.Squash {
 		return fmt.Errorf("cannot change Squash mode at runtime (requires restart)")
 	}
+
+	// Preserve Timeouts and Log from the current snapshot when not provided,
+	// then give every zero or negative field the same default New() would.
+	current := n.tuning.Load()
+	if newOptions.Timeouts == nil && current.Timeouts != nil {
+		tCopy := *current.Timeouts
+		newOptions.Timeouts = &tCopy
+	} else if newOptions.Timeouts != nil {
+		tCopy := *newOptions.Timeouts // do not write defaults into the caller's struct
+		newOptions.Timeouts = &tCopy
+	}
+	if newOptions.Log == nil && current.Log != nil {
+		logCopy := *current.Log
+		newOptions.Log = &logCopy
+	}
+	newOptions.hasExplicitTCPSettings = true // TCP flags are taken as given at runtime
+	applyOptionDefaults(&newOptions)
+
+	// Apply tuning changes (lock-free, immediate).
+	n.UpdateTuningOptions(func(t *TuningOptions) {
+		*t = *tuningFromExportOptions(&newOptions)
+	})
 
 	// Apply policy changes (drain-and-swap)
 	newPolicy := PolicyOptions{
